@@ -194,7 +194,7 @@ impl Property for C03 {
         "C03"
     }
     fn rule(&self) -> String {
-        "cases: (a) byte strings: the generated inputs of C01/C02 (valid records, tampers, re-signed structural mutants) and unstructured bytes, handed to decode / Vec::decode / decode_public of every key type, NodeId::parse and the CombinedKey importers; (b) strings: texts of C12 and unstructured strings handed to from_str and to serde_json (quoted and raw) for Enr<K> and NodeId; (c) call histories as for C05 (malformed raw RLP, reserved keys through generic entry points, all six families). After every step of every history and on every accepted record, 58+12*keys public accessors / formatters / conversions are called (get, get_decodable for 10 types, typed getters, sockets, public_key, verify, Debug, Display, serde, Hash, iteration, NodeId conversions, encode ...). Oracle: every call runs under catch_unwind; any panic is a violation (Result::Err is the contract and never one); a call still running after 20 CPU-seconds of its thread is reported as non-termination. Non-trivial: a history with a malformed/ill-typed argument or reserved key through a generic entry point, or an input that gets past the outer list header. Distinct by hash of the case.".into()
+        "cases: (a) byte strings: the generated inputs of C01/C02 (valid records, tampers, re-signed structural mutants) and unstructured bytes, handed to decode / Vec::decode / decode_public of every key type, NodeId::parse and the CombinedKey importers; (b) strings: texts of C12 and unstructured strings handed to from_str and to serde_json (quoted and raw) for Enr<K> and NodeId; (c) call histories as for C05 (malformed raw RLP, reserved keys through generic entry points, all eight families). After every step of every history and on every accepted record, 58+12*keys public accessors / formatters / conversions are called (get, get_decodable for 10 types, typed getters, sockets, public_key, verify, Debug, Display, serde, Hash, iteration, NodeId conversions, encode ...). Oracle: every call runs under catch_unwind; any panic is a violation (Result::Err is the contract and never one); a call still running after 20 CPU-seconds of its thread is reported as non-termination. Non-trivial: a history with a malformed/ill-typed argument or reserved key through a generic entry point, or an input that gets past the outer list header. Distinct by hash of the case.".into()
     }
     fn assumptions(&self) -> Vec<String> {
         vec![
